@@ -13,6 +13,7 @@
 //! 2 harness error (never with a VIOLATION line).
 
 mod check;
+mod crash;
 mod directed;
 mod elem;
 mod exec;
@@ -95,6 +96,14 @@ fn profile_name() -> &'static str {
     if cfg!(debug_assertions) { "dev (overflow checks on)" } else { "release (overflow checks off)" }
 }
 
+/// the build's label: profile plus whatever the check script says about it (sanitizer, polars)
+fn profile_label(args: &Args) -> String {
+    match args.kv.get("label") {
+        Some(l) if !l.is_empty() => format!("{l}; {}", profile_name()),
+        _ => profile_name().to_string(),
+    }
+}
+
 fn replay_file_json(
     prop: &str,
     seed: u64,
@@ -125,10 +134,39 @@ fn cmd_replay(args: &Args) -> ! {
     let j = J::parse(&text).unwrap_or_else(|e| harness_fail(&format!("{path}: {e}")));
     let prop = j.get("property").and_then(|v| v.as_str().ok()).unwrap_or("C09").to_string();
     let class = j.get("class").and_then(|v| v.as_str().ok()).unwrap_or("").to_string();
-    let pj = j.get("program").unwrap_or(&j);
-    let program = Program::from_j(pj).unwrap_or_else(|e| harness_fail(&format!("{path}: {e}")));
     exec::install_panic_hook_once();
-    let (viol, st) = check_program(&program);
+    let mut viol = vec![];
+    let mut st = check::RunStats::default();
+    if let Some(batch) = j.get("batch") {
+        // crash replay of last resort: the whole batch again, single-threaded
+        let tier = batch.get("tier").and_then(|v| v.as_str().ok()).unwrap_or("quick").to_string();
+        let seed = batch.get("seed").and_then(|v| v.as_i64().ok()).unwrap_or(DEFAULT_SEED as i64) as u64;
+        let scale = match batch.get("scale") {
+            Some(J::Float(f)) => *f,
+            Some(J::Int(i)) => *i as f64,
+            _ => 1.0,
+        };
+        let plan = plan(&prop, &tier, polars_built(), scale);
+        let agg = run_plan(&plan, seed, 1);
+        for f in agg.found {
+            viol.push(f.violation);
+        }
+    } else if let Some(seq) = j.get("programs") {
+        for pj in seq.as_arr().unwrap_or_else(|e| harness_fail(&e)) {
+            let program = Program::from_j(pj).unwrap_or_else(|e| harness_fail(&format!("{path}: {e}")));
+            let (v, s) = check_program(&program);
+            viol.extend(v);
+            if s.harness_error.is_some() {
+                st = s;
+            }
+        }
+    } else {
+        let pj = j.get("program").unwrap_or(&j);
+        let program = Program::from_j(pj).unwrap_or_else(|e| harness_fail(&format!("{path}: {e}")));
+        let (v, s) = check_program(&program);
+        viol = v;
+        st = s;
+    }
     if let Some(e) = st.harness_error {
         harness_fail(&e);
     }
@@ -143,6 +181,160 @@ fn cmd_replay(args: &Args) -> ! {
         println!("note: recorded class was {class}");
     }
     println!("VIOLATION property={prop} replay={path}");
+    std::process::exit(1);
+}
+
+fn self_cmd(args: &Args, cmd: &str) -> std::process::Command {
+    let exe = std::env::current_exe().unwrap_or_else(|e| harness_fail(&format!("current_exe: {e}")));
+    let mut c = std::process::Command::new(exe);
+    c.arg(cmd);
+    for p in args.pos.iter().skip(1) {
+        c.arg(p);
+    }
+    for (k, v) in &args.kv {
+        c.arg(format!("--{k}")).arg(v);
+    }
+    // sanitizer builds: die by SIGABRT so that the crash handler can name the run
+    c.env("ASAN_OPTIONS", "abort_on_error=1:detect_leaks=0:handle_abort=0");
+    c.env("MSAN_OPTIONS", "abort_on_error=1:handle_abort=0");
+    c
+}
+
+fn died(status: &std::process::ExitStatus) -> bool {
+    !matches!(status.code(), Some(0) | Some(1) | Some(2))
+}
+
+fn describe(status: &std::process::ExitStatus) -> String {
+    use std::os::unix::process::ExitStatusExt;
+    match (status.code(), status.signal()) {
+        (Some(c), _) if c == crash::CRASH_EXIT => "fatal signal caught by the crash handler".to_string(),
+        (Some(c), _) => format!("exit code {c}"),
+        (None, Some(s)) => format!("signal {s}"),
+        _ => "unknown".to_string(),
+    }
+}
+
+/// `replay`: the file is executed in a child process, so that a crash is a result, not the end
+fn supervise_replay(args: &Args) -> ! {
+    let Some(path) = args.pos.get(1) else { harness_fail("replay needs a file") };
+    let out = self_cmd(args, "replay-inner").output().unwrap_or_else(|e| harness_fail(&format!("spawn: {e}")));
+    print!("{}", String::from_utf8_lossy(&out.stdout));
+    if !died(&out.status) {
+        eprint!("{}", String::from_utf8_lossy(&out.stderr));
+        std::process::exit(out.status.code().unwrap_or(2));
+    }
+    let text = std::fs::read_to_string(path).unwrap_or_default();
+    let prop = J::parse(&text)
+        .ok()
+        .and_then(|j| j.get("property").and_then(|v| v.as_str().ok()).map(|s| s.to_string()))
+        .unwrap_or("C09".into());
+    let err = String::from_utf8_lossy(&out.stderr);
+    let tail: Vec<&str> = err.lines().rev().take(12).collect();
+    for l in tail.iter().rev() {
+        println!("  | {l}");
+    }
+    println!("replay {path}: the process executing the program died ({}): memory was corrupted", describe(&out.status));
+    println!("VIOLATION property={prop} replay={path}");
+    std::process::exit(1);
+}
+
+/// `run`: the batch runs in a child process; if it dies, the runs it executed last are turned
+/// into a replay file that is verified (in another child) to die again
+fn supervise_run(args: &Args) -> ! {
+    let t0 = Instant::now();
+    let out = self_cmd(args, "run-inner").output().unwrap_or_else(|e| harness_fail(&format!("spawn: {e}")));
+    print!("{}", String::from_utf8_lossy(&out.stdout));
+    if !died(&out.status) {
+        eprint!("{}", String::from_utf8_lossy(&out.stderr));
+        std::process::exit(out.status.code().unwrap_or(2));
+    }
+    let err = String::from_utf8_lossy(&out.stderr).to_string();
+    let prop = args.kv.get("prop").cloned().unwrap_or_else(|| harness_fail("--prop missing"));
+    let tier = args.kv.get("tier").cloned().unwrap_or("quick".into());
+    let seed: u64 = match args.kv.get("seed") {
+        Some(s) if !s.is_empty() => s.parse().unwrap_or(DEFAULT_SEED),
+        _ => DEFAULT_SEED,
+    };
+    let scale: f64 = args.kv.get("scale").and_then(|s| s.parse().ok()).unwrap_or(1.0);
+    let replay_dir = args.kv.get("replay-dir").cloned().unwrap_or("replays".into());
+    let _ = std::fs::create_dir_all(&replay_dir);
+    for l in err.lines().rev().take(25).collect::<Vec<_>>().iter().rev() {
+        println!("  | {l}");
+    }
+    println!("the batch process died ({})", describe(&out.status));
+    let plan = plan(&prop, &tier, polars_built(), scale);
+    let recent = crash::parse_crash(&err).map(|(_, r)| r).unwrap_or_default();
+    let programs: Vec<(String, u64, Program)> = recent
+        .iter()
+        .filter(|(s, r)| *s < plan.sources.len() && *r < plan.sources[*s].len())
+        .map(|(s, r)| (plan.sources[*s].name().to_string(), *r, plan.sources[*s].program(seed, *r)))
+        .collect();
+    let head = |extra: Vec<(&str, J)>| {
+        let mut o = vec![
+            ("property", J::s(&prop)),
+            ("class", J::s("H5:process-died")),
+            ("oracle", J::s("H5")),
+            ("stage", J::s("process-died")),
+            ("detail", J::s(&format!("the process executing the batch died ({})", describe(&out.status)))),
+            ("seed", J::Int(seed as i64)),
+            ("profile", J::s(profile_name())),
+        ];
+        o.extend(extra);
+        J::obj(o)
+    };
+    let try_file = |name: &str, j: J| -> Option<String> {
+        let fname = format!("{replay_dir}/{prop}-H5_process-died-{seed}-{name}.json");
+        std::fs::write(&fname, j.pretty()).ok()?;
+        let mut a = Args { pos: vec!["replay".into(), fname.clone()], kv: BTreeMap::new() };
+        a.kv.clear();
+        let o = self_cmd(&a, "replay-inner").output().ok()?;
+        if died(&o.status) || o.status.code() == Some(1) { Some(fname) } else { None }
+    };
+    let mut found: Option<String> = None;
+    // 1. the run that was executing when the process died
+    if let Some((src, run, p)) = programs.first() {
+        found = try_file(
+            &format!("{}-{run}", src.replace('/', "_")),
+            head(vec![("source", J::s(src)), ("run", J::Int(*run as i64)), ("program", p.to_j())]),
+        );
+    }
+    // 2. the last runs of that worker, in the order they were executed
+    if found.is_none() && programs.len() > 1 {
+        let seq: Vec<J> = programs.iter().rev().map(|(_, _, p)| p.to_j()).collect();
+        found = try_file("recent-sequence", head(vec![("programs", J::Arr(seq))]));
+    }
+    // 3. the whole batch again, single-threaded
+    if found.is_none() {
+        found = try_file(
+            "batch",
+            head(vec![(
+                "batch",
+                J::obj(vec![("tier", J::s(&tier)), ("seed", J::Int(seed as i64)), ("scale", J::Float(scale))]),
+            )]),
+        );
+    }
+    let Some(fname) = found else {
+        harness_fail("the batch process died but no replay reproduces it");
+    };
+    if let Some(path) = args.kv.get("evidence") {
+        let distinct: std::collections::BTreeSet<String> = programs.iter().map(|(_, _, p)| p.to_j().to_string()).collect();
+        let ev = J::obj(vec![
+            ("property_id", J::s(&prop)),
+            ("tier", J::s(&tier)),
+            ("seed", J::Int(seed as i64)),
+            ("level", J::s(if prop == "C19" { "fault_enumeration" } else { "exploration" })),
+            ("coverage", J::obj(vec![
+                ("evaluations", J::Int(programs.len().max(1) as i64)),
+                ("distinct_nontrivial", J::Int(distinct.len() as i64)),
+                ("rule", J::s("the batch process died before it could report; only the runs named by the crash handler are counted")),
+                ("samples", J::Arr(programs.iter().take(3).map(|(_, _, p)| p.to_j()).collect())),
+            ])),
+            ("wall_s", J::Float(t0.elapsed().as_secs_f64())),
+            ("violations", J::Int(1)),
+        ]);
+        let _ = std::fs::write(path, ev.pretty());
+    }
+    println!("VIOLATION property={prop} replay={fname}");
     std::process::exit(1);
 }
 
@@ -167,8 +359,16 @@ fn main() {
     let args = parse_args();
     let cmd = args.pos.first().cloned().unwrap_or_default();
     match cmd.as_str() {
-        "run" | "digest" => cmd_run(&args, cmd == "digest"),
-        "replay" => cmd_replay(&args),
+        "run" => supervise_run(&args),
+        "replay" => supervise_replay(&args),
+        "run-inner" | "digest" => {
+            crash::install();
+            cmd_run(&args, cmd == "digest")
+        },
+        "replay-inner" => {
+            crash::install();
+            cmd_replay(&args)
+        },
         "show" => cmd_show(&args),
         _ => harness_fail("usage: streamsim run|replay|digest|show ..."),
     }
@@ -267,17 +467,30 @@ fn cmd_run(args: &Args, digest_only: bool) -> ! {
         .take(6)
         .map(|(s, i, p)| J::obj(vec![("source", J::s(s)), ("run", J::Int(*i as i64)), ("program", p.to_j())]))
         .collect();
-    let extra = args.kv.get("extra-summary").and_then(|p| std::fs::read_to_string(p).ok()).and_then(|t| J::parse(&t).ok());
     let mut profiles = vec![J::obj(vec![
-        ("profile", J::s(profile_name())),
+        ("profile", J::s(&profile_label(args))),
+        ("tier", J::s(&tier)),
+        ("scale", J::Float(scale)),
         ("runs", J::Int(agg.runs as i64)),
         ("violations", J::Int(new_violations as i64)),
         ("digest", J::s(&format!("{:016x}", agg.digest))),
     ])];
     let mut extra_violations = 0i64;
-    if let Some(e) = &extra {
-        extra_violations = e.get("violations").and_then(|v| v.as_i64().ok()).unwrap_or(0);
-        profiles.push(e.clone());
+    // summaries of the other builds of the same engine (dev profile, sanitizer builds, Polars build)
+    for path in args.kv.get("extra-summary").map(|s| s.as_str()).unwrap_or("").split(',') {
+        if path.is_empty() {
+            continue;
+        }
+        match std::fs::read_to_string(path).ok().and_then(|t| J::parse(&t).ok()) {
+            Some(e) => {
+                extra_violations += e.get("violations").and_then(|v| v.as_i64().ok()).unwrap_or(0);
+                profiles.push(e);
+            },
+            None => profiles.push(J::obj(vec![
+                ("profile", J::s(path)),
+                ("note", J::s("no summary: that build reported a violation or died; see its output")),
+            ])),
+        }
     }
     let rule = "cases = programs (source container and layout, library pipeline, simulated consumer script, terminal operation, sink) \
 generated before the run from (seed, run index) or enumerated by the directed sweeps; the size hint is read after every consumer step and \
@@ -354,7 +567,10 @@ container interrogated a library-internal iterator).";
     }
     if let Some(path) = args.kv.get("summary-out") {
         let s = J::obj(vec![
-            ("profile", J::s(profile_name())),
+            ("profile", J::s(&profile_label(args))),
+            ("tier", J::s(&tier)),
+            ("scale", J::Float(scale)),
+            ("polars_backend_included", J::Bool(polars_built())),
             ("runs", J::Int(agg.runs as i64)),
             ("violations", J::Int(new_violations as i64)),
             ("digest", J::s(&format!("{:016x}", agg.digest))),
